@@ -9,6 +9,7 @@ import (
 	"encoding/json"
 	"fmt"
 	"math/big"
+	"strconv"
 	"strings"
 
 	"github.com/hyperledger/firefly-signer/pkg/keystorev3"
@@ -31,6 +32,33 @@ func describeKsFile(doc []byte) map[string]any {
 		}
 	}
 	return out
+}
+
+// ksExpensive reports whether the decoded file asks for a key derivation that is well-formed but too costly to run
+// thousands of times in both the implementation and the Lean reference (e.g. a junk value 2147483648 landing in
+// `c` or `n`): such files are not malformed — they are outside what C15 is about — and are not generated.
+func ksExpensive(f map[string]any) bool {
+	num := func(k string) int64 {
+		s, _ := f[k].(string)
+		v, err := strconv.ParseInt(s, 10, 64)
+		if err != nil || v < 0 {
+			return 0
+		}
+		return v
+	}
+	sat := func(a, b int64) int64 {
+		if a != 0 && b > (1<<40)/a {
+			return 1 << 40
+		}
+		return a * b
+	}
+	switch f["kdf"] {
+	case "scrypt":
+		return sat(sat(num("n"), num("r")), num("p")) > 1<<17
+	case "pbkdf2":
+		return num("c") > 10000
+	}
+	return false
 }
 
 func ksReadReq(doc []byte, pw []byte, extra map[string]any) map[string]any {
@@ -289,6 +317,7 @@ func init() {
 			if c.Thorough() {
 				n = 800
 			}
+			skippedExpensive := 0
 			junk := []any{nil, true, "x", "", json.Number("0"), json.Number("-1"), json.Number("1.5"), json.Number("1e2"), json.Number("99999999999999999999"), []any{}, map[string]any{}, "0x", "zz", json.Number("3"), json.Number("2147483648")}
 			for i := 0; i < n; i++ {
 				pw := []byte(ksPasswords[r.Intn(len(ksPasswords))])
@@ -376,7 +405,12 @@ func init() {
 						tag += "+validmac"
 					}
 					b, _ := json.Marshal(t)
-					c.Add(ksReadReq(b, pw, nil), "mut."+tag)
+					mreq := ksReadReq(b, pw, nil)
+					if ksExpensive(mreq["file"].(map[string]any)) {
+						skippedExpensive++
+						continue
+					}
+					c.Add(mreq, "mut."+tag)
 				}
 			}
 			for _, s := range []string{"", "null", "[]", "{}", "5", `"x"`, `{"version":3}`, `{"id":"3198bc9c-6672-5ab3-d995-4942343ae5b6","version":3}`,
@@ -387,6 +421,7 @@ func init() {
 			for i := 0; i < 50; i++ {
 				c.Add(ksReadReq(r.Bytes(r.Intn(200)), []byte("pw"), nil), "randombytes")
 			}
+			c.Notes["skipped_expensive_kdf_parameters"] = skippedExpensive
 		},
 		Impl:  ksImpl,
 		Judge: ksJudge,
